@@ -74,6 +74,17 @@ CLAIMS = {
              "the flag-byte grouping and termination of both outer loops; zlib/bz2/zstd paths are CPython's. A native whole-compressor "
              "round trip through the real C decompressor backs the replay.",
         ref="4 C12"),
+    "C49": dict(
+        text="Proof of field-exact postconditions with whole-heap frames for the mutators of StringIOTree on an address-based heap "
+             "(aliasing is real: commit moves the SAME stream object into the fresh child): commit(), insert(t) and insertion_point() "
+             "(commit's body inlined, i.e. real code) - pending text is always committed into a fresh child before anything is appended, "
+             "children only grow at the end, self gets a fresh stream/markers and a write alias bound to the new stream, nothing else in "
+             "the heap changes. Kernel: the per-operation step of the insertion-point-order argument.",
+        note="Trusted: dv Python front end; io.StringIO and the StringIOTree constructor are contract stubs (tell() = length of the text, "
+             "fresh empty objects); write aliases are modelled as the stream's identity. NOT mechanised: the induction from the per-step "
+             "contracts to 'getvalue() is the concatenation in insertion-point order' (DESIGN.md), getvalue/copyto/allmarkers "
+             "recursion, marker/line alignment in CCodeWriter.",
+        ref="4 C49"),
     "C50": dict(
         text="Proof of two data-structure kernels of the lexer engine: TransitionMap.split (binary search with insertion) against the "
              "class's representation invariant - loop invariant taken from the source comment, termination, field-exact postcondition "
